@@ -745,7 +745,87 @@ def lockdir_facts(target="lockdir"):
         print(json.dumps(out))
     return out
 
+COMPRESSORS = {"bzip2", "gzip", "xz", "zstd", "compress", "lzma", "pbzip2", "pigz"}
+
+def compress_facts():
+    """For every shell script under bin/: pipelines that compress files found below the
+    policies directory.  missing-approve and do-approve read the files of the policy that
+    `current` points to uncompressed, so such a pipeline has to leave that directory out:
+    its first find carries `! -name W` where W is a variable assigned from
+    $(readlink .../current).  Output: JSON list of {script, ok, commands, pipelines, detail};
+    nothing is executed."""
+    out = []
+    bindir = os.path.join(REPO, "bin")
+    for fn in sorted(os.listdir(bindir)):
+        p2 = os.path.join(bindir, fn)
+        if not os.path.isfile(p2):
+            continue
+        first = open(p2, errors="replace").readline()
+        if not re.match(r"^#!.*\b(sh|bash)\b", first):
+            continue
+        try:
+            tree, _ = parse_script(p2)
+        except Exception as e:
+            out.append({"script": fn, "ok": False, "commands": 0, "pipelines": 0, "detail": "bash cannot parse the script: %s" % e})
+            continue
+        cmds = []
+        flatten(tree, "<top>", [], cmds)
+        vals = {}
+        for c in cmds:
+            for w in c.words[:1]:
+                m = re.match(r"^([A-Za-z_][A-Za-z0-9_]*)=(.*)$", w)
+                if m:
+                    # the whole text: a command substitution has blanks
+                    vals.setdefault(m.group(1), set()).add(c.text[len(m.group(1)) + 1:].strip("\"'"))
+        def expand(word, depth=0):
+            res = {word}
+            if depth > 3:
+                return res
+            for v, vs in vals.items():
+                for form in ("${%s}" % v, "$%s" % v):
+                    if form in word:
+                        for val in vs:
+                            res |= expand(word.replace(form, val), depth + 1)
+            return res
+        hits, pipes = [], 0
+        for c in cmds:
+            if not c.words or os.path.basename(c.words[0]) != "find":
+                continue
+            args = c.words[1:]
+            starts = []
+            for a in args:
+                if a.startswith("-") or a in ("(", "!"):
+                    break
+                starts.append(a)
+            if not any(re.search(r"(^|/)policies/?$", e) for a in starts for e in expand(a.strip("\"'"))):
+                continue
+            # the pipeline behind this find
+            chain, k = [c], c.order + 1
+            while True:
+                nxt = [d for d in cmds if d.order == k and d.andor == "|" and d.func == c.func]
+                if not nxt:
+                    break
+                chain.append(nxt[0]); k += 1
+            compresses = any(os.path.basename(w) in COMPRESSORS for d in chain for w in d.words)
+            if not compresses:
+                continue
+            pipes += 1
+            excluded = False
+            for k2, a in enumerate(args):
+                if a == "-name" and k2 > 0 and args[k2 - 1] in ("!", "-not") and k2 + 1 < len(args):
+                    m = re.search(r"\$\{?([A-Za-z_][A-Za-z0-9_]*)", args[k2 + 1])
+                    if m and any("readlink" in v and "current" in v for v in vals.get(m.group(1), ())):
+                        excluded = True
+            if not excluded:
+                hits.append("%s: `%s` compresses below the policies directory and does not leave out the directory `current` points to" % (c.func, " | ".join(d.text for d in chain)))
+        out.append({"script": fn, "ok": not hits, "commands": len(cmds), "pipelines": pipes, "detail": "; ".join(hits)})
+    print(json.dumps(out))
+    return out
+
 if __name__ == "__main__":
+    if len(sys.argv) > 1 and sys.argv[1] == "--compress-facts":
+        compress_facts()
+        sys.exit(0)
     if len(sys.argv) > 1 and sys.argv[1] == "--lockdir-facts":
         lockdir_facts()
         sys.exit(0)
